@@ -484,7 +484,7 @@ Proof.
     + eapply invS_cs2; eassumption.
     + eapply invS_cs3; eassumption.
   - unfold cs_step in H.
-    destruct (t_req (cfg t)) as [|n0 k0 b0|n0 k0 b0|n0|n0] eqn:Erq; try discriminate.
+    destruct (t_req (cfg t)) as [|n0 k0 b0|n0 k0 b0|n0|n0|] eqn:Erq; try discriminate.
     destruct k; [|discriminate]. inversion H; subst; clear H.
     assert (Eb : base (set_pc s t (PEnd RNoopDone)) = base s) by reflexivity.
     constructor; try rewrite Eb; cbn [set_pc objs ver log reg pcs].
